@@ -2,6 +2,7 @@
 import random
 from vlib.driver import Plan, H
 from vlib.catalog import *
+from props import strprops
 
 USE = "use crate::support::de::*;\n    use serde::Deserialize;"
 
@@ -157,6 +158,7 @@ def generate(tier, seed):
                         for h in nhs:
                             plan.add(h)
                     src.append("pub mod %s {\n    use super::*;\n    use nutype::nutype;\n    %s\n    %s\n%s\n%s}\n" % (m, USE, d.prelude(), indent(d.attr()), hsrc))
+    src.append(strprops.gen_c04(plan, tier, rng))
     plan.source = "\n".join(src)
     plan.features = []
     plan.bounds = {"events": "one harness per (declaration, event kind): u8..u64, i8..i64, f32, f64, bool, char, unit, none, some(prim), seq of <=2 prims, a text event, all payload values; u128/i128 events only for 128-bit inner types (serde formats the number for smaller targets)",
@@ -164,4 +166,9 @@ def generate(tier, seed):
     plan.assumptions = ["stub Deserializer models how serde_json, ron and rmp-serde treat newtype structs: deserialize_newtype_struct(name, v) -> v.visit_newtype_struct(self)",
                         "byte-level parsers of the formats are trusted to deliver exactly these events", "de::Error::custom does not format (unit error type)",
                         "non-NaN float bound values; custom fns range over symbolic families"]
+    if "-Z" not in plan.kani_flags:
+        plan.kani_flags = plan.kani_flags + ["-Z", "stubbing"]
+    plan.pre_steps = plan.pre_steps + [strprops.model_validation_step]
+    plan.assumptions = plan.assumptions + strprops.ASSUMPTIONS
+    plan.bounds["strings"] = "skeleton inputs: concrete whitespace/underscore/non-ASCII characters + <= 3 symbolic printable-ASCII fillers, one harness per (declaration, skeleton); unwind 12-14"
     return plan
